@@ -234,7 +234,7 @@ class Lab:
                 op['do_fsync'] = False
                 if op['op'] == 'addPacked' and rng.random() < 0.7:
                     op['no_holes'] = False  # (the final truncate() of no_holes flushes the buffer)
-            if op['op'] == 'addPacked' and op.get('via') in ('single', 'midstream', 'lazy'):
+            if op['op'] == 'addPacked' and op.get('via') in ('single', 'midstream', 'lazy', 'nested'):
                 op['via'] = 'bytes'
             if op['op'] == 'reopen':
                 op = {'op': 'addLoose', 'on': 'a', 'c': rng.randrange(len(pool)), 'via': 'bytes'}
